@@ -182,7 +182,14 @@ pub fn deinline_opt(
         })
         .collect();
 
+    #[cfg(feature = "verif-hooks")]
+    let root_set_to_inline_tree =
+        crate::verif_hooks::ordered_map("deinline/root-sets", root_set_to_inline_tree);
+
     for (_, function_set) in root_set_to_inline_tree.iter() {
+        #[cfg(feature = "verif-hooks")]
+        let function_set = &crate::verif_hooks::ordered_set("deinline/function-set", function_set);
+
         loop {
             let start_metric = metric;
 
